@@ -45,6 +45,11 @@ pub struct Case {
     /// Opposite direction running concurrently (untampered cases only).
     b: Option<Dir>,
     tamper: Option<Tamper>,
+    /// Untampered bidirectional cases only: nobody waits for the other side's handshake to finish - each end starts its
+    /// write program the moment its own handshake returns, and the transport scripts apply from the very first byte, so
+    /// the last handshake message and the first data frames can arrive in one read (or byte by byte).
+    #[serde(default)]
+    early: bool,
 }
 
 const MAX_FRAME_BODY: usize = 65535;
@@ -99,7 +104,8 @@ pub fn gen_case(ch: &mut Choices) -> Case {
     let a = gen_dir(ch, true);
     if !tampered {
         let b = ch.chance(1, 3).then(|| gen_dir(ch, true));
-        return Case { a, b, tamper: None };
+        let early = b.is_some() && ch.chance(1, 2);
+        return Case { a, b, tamper: None, early };
     }
     let pos = ch.raw();
     let tamper = match ch.below(9) {
@@ -112,7 +118,7 @@ pub fn gen_case(ch: &mut Choices) -> Case {
         7 => Tamper::DropFrame { frame: pos },
         _ => Tamper::ReplayFrame { frame: pos, at: ch.raw() },
     };
-    Case { a, b: None, tamper: Some(tamper) }
+    Case { a, b: None, tamper: Some(tamper), early: false }
 }
 
 /// Splits a wire byte string into `len || body` frames; Err if it is not a whole number of frames.
@@ -234,7 +240,108 @@ pub fn check(case: &Case, st: &mut Stats) -> Result<(), String> {
     })
 }
 
+/// Both ends start writing the moment their own handshake returns; scripts apply to the handshake bytes too.
+async fn run_early(ctx: &ctx::Ctx, case: &Case, st: &mut Stats) -> Result<(), String> {
+    let Some(bdir) = case.b.clone() else { return Err("harness: early mode needs both directions".into()) };
+    // sizes of the two handshake messages on the wire (measured on a scratch session)
+    let (hs_a2b, hs_b2a) = {
+        let (x, y) = (Pipe::new(1 << 20, vec![], vec![]).recording(), Pipe::new(1 << 20, vec![], vec![]).recording());
+        let (ea, eb) = duplex(x.clone(), y.clone());
+        let _sessions = handshake(ctx, ea, eb).await?;
+        (x.wire().len(), y.wire().len())
+    };
+    let a2b = Pipe::new(case.a.capacity, case.a.write_script.clone(), case.a.read_script.clone()).recording();
+    let b2a = Pipe::new(bdir.capacity, bdir.write_script.clone(), bdir.read_script.clone()).recording();
+    let (ea, eb) = duplex(a2b.clone(), b2a.clone());
+    let pa = Arc::new(Mutex::new(Progress::default()));
+    let pb = Arc::new(Mutex::new(Progress::default()));
+    let hs_err: Arc<Mutex<Option<String>>> = Arc::default();
+    let mut tasks = vec![];
+    // the responder first: it finishes its handshake by writing the last handshake message and goes straight on to its data
+    {
+        let (ctx, ops, chunks, pa, pb, hs_err) = (ctx.with_deadline(zksync_concurrency::time::Deadline::Infinite), bdir.ops.clone(), case.a.read_chunks.clone(), pa.clone(), pb.clone(), hs_err.clone());
+        tasks.push(tokio::spawn(async move {
+            match NoiseStream::server(&ctx, eb).await {
+                Ok(sb) => {
+                    let (rb, wb) = tokio::io::split(sb);
+                    tokio::join!(writer(wb, 2, ops, pb), reader(rb, 1, chunks, pa));
+                }
+                Err(e) => *hs_err.lock().unwrap() = Some(format!("server handshake: {e:?}")),
+            }
+        }));
+    }
+    {
+        let (ctx, ops, chunks, pa, pb, hs_err) = (ctx.with_deadline(zksync_concurrency::time::Deadline::Infinite), case.a.ops.clone(), bdir.read_chunks.clone(), pa.clone(), pb.clone(), hs_err.clone());
+        tasks.push(tokio::spawn(async move {
+            match NoiseStream::client(&ctx, ea).await {
+                Ok(sa) => {
+                    let (ra, wa) = tokio::io::split(sa);
+                    tokio::join!(writer(wa, 1, ops, pa), reader(ra, 2, chunks, pb));
+                }
+                Err(e) => *hs_err.lock().unwrap() = Some(format!("client handshake: {e:?}")),
+            }
+        }));
+    }
+    det::barrier().await;
+    let res = (|| {
+        if let Some(e) = hs_err.lock().unwrap().clone() {
+            return Err(format!("handshake over a fragmenting but otherwise honest transport failed: {e}"));
+        }
+        for (name, p, pipe, hs) in [("a->b", &pa, &a2b, hs_a2b), ("b->a", &pb, &b2a, hs_b2a)] {
+            let g = p.lock().unwrap();
+            if let Some(c) = &g.corrupt {
+                return Err(format!("{name} (data written right after the handshake): {c}"));
+            }
+            if let Some(e) = &g.writer_err {
+                return Err(format!("{name}: writer failed on an untampered connection: {e}"));
+            }
+            if let Some(e) = &g.reader_err {
+                return Err(format!("{name}: reader failed on an untampered connection after {} bytes: {e}", g.received));
+            }
+            if !g.writer_done {
+                return Err(format!("{name}: deadlock: writer still blocked at quiescence (accepted {} flushed {} received {}, {} bytes buffered in the transport)", g.accepted, g.flushed, g.received, pipe.buffered()));
+            }
+            if g.received < g.flushed {
+                return Err(format!("{name}: {} bytes were written and flushed right after the handshake but only {} arrived", g.flushed, g.received));
+            }
+            if g.received > g.accepted {
+                return Err(format!("{name}: reader got {} bytes, more than the {} written", g.received, g.accepted));
+            }
+            if g.shutdown && (!g.eof || g.received != g.accepted) {
+                return Err(format!("{name}: after shutdown the reader must see all {} bytes and EOF; got {} bytes, eof={}", g.accepted, g.received, g.eof));
+            }
+            if g.eof && !g.shutdown {
+                return Err(format!("{name}: reader saw EOF although the writer never shut down"));
+            }
+            let wire = pipe.wire();
+            if wire.len() < hs {
+                return Err(format!("{name}: harness: wire shorter than the handshake"));
+            }
+            let frames = parse_frames(&wire[hs..]).map_err(|e| format!("{name}: wire is not a sequence of length-prefixed frames: {e}"))?;
+            for (off, len) in &frames {
+                let body = len - 2;
+                if body < TAG || body > MAX_FRAME_BODY {
+                    return Err(format!("{name}: frame at wire offset {off} has body length {body} (must be within 16..=65535)"));
+                }
+            }
+            if g.flushed > 0 {
+                st.nontrivial(common::fingerprint(case));
+            }
+        }
+        Ok(())
+    })();
+    for t in tasks {
+        t.abort();
+    }
+    st.class("clean_data_right_after_handshake");
+    st.sample(|| serde_json::to_value(case).unwrap());
+    res
+}
+
 async fn run_clean(ctx: &ctx::Ctx, case: &Case, st: &mut Stats) -> Result<(), String> {
+    if case.early && case.b.is_some() {
+        return run_early(ctx, case, st).await;
+    }
     let a2b = Pipe::new(case.a.capacity.max(70), vec![], vec![]).recording();
     let bcfg = case.b.clone();
     let b2a = Pipe::new(bcfg.as_ref().map_or(1 << 20, |b| b.capacity.max(70)), vec![], vec![]).recording();
